@@ -80,7 +80,8 @@ r_buf_rpos_index_inc(r_buf_p r_buf, r_buf_rpos_p rpos) {
 
 static size_t
 iovec_aggregate_ex(iovec_p iov, size_t iov_cnt, size_t data_size, size_t off,
-    iovec_p ret, size_t ret_cnt, size_t *reminder_data_size_ret) {
+    iovec_p ret, size_t ret_cnt, size_t *reminder_data_size_ret,
+    int *all_used_ret) {
 	register size_t i, j = 0;
 
 	/* Do not send packet fragment as last packet in buf. */
@@ -89,6 +90,10 @@ iovec_aggregate_ex(iovec_p iov, size_t iov_cnt, size_t data_size, size_t off,
 	    (1 == iov_cnt && 0 == (iov[0].iov_len - off))) {
 		if (NULL != reminder_data_size_ret) { /* Nothing consumed. */
 			(*reminder_data_size_ret) = data_size;
+		}
+		if (NULL != all_used_ret) { /* Nothing left behind? */
+			(*all_used_ret) = (0 == iov_cnt ||
+			    (1 == iov_cnt && 0 == (iov[0].iov_len - off)));
 		}
 		return (0);
 	}
@@ -108,6 +113,9 @@ iovec_aggregate_ex(iovec_p iov, size_t iov_cnt, size_t data_size, size_t off,
 	}
 	if (NULL != reminder_data_size_ret) {
 		(*reminder_data_size_ret) = data_size;
+	}
+	if (NULL != all_used_ret) {
+		(*all_used_ret) = (i == iov_cnt);
 	}
 
 	return ((j + 1));
@@ -616,6 +624,7 @@ size_t
 r_buf_data_get(r_buf_p r_buf, r_buf_rpos_p rpos, size_t data_size,
     iovec_p iov, size_t iov_cnt, size_t *drop_size_ret, size_t *data_size_ret) {
 	size_t ret = 0, tm;
+	int all_used = 0;
 
 	if (NULL == r_buf || NULL == rpos || 0 == data_size ||
 	    NULL == iov || 0 == iov_cnt ||
@@ -634,15 +643,16 @@ r_buf_data_get(r_buf_p r_buf, r_buf_rpos_p rpos, size_t data_size,
 		}
 		ret = iovec_aggregate_ex(&r_buf->iov[rpos->iov_index],
 		    (1 + r_buf->iov_index - rpos->iov_index), data_size,
-		    rpos->iov_off, iov, iov_cnt, &tm);
+		    rpos->iov_off, iov, iov_cnt, &tm, NULL);
 	} else {
 		ret = iovec_aggregate_ex(&r_buf->iov[rpos->iov_index],
 		    (1 + r_buf->iov_index_max - rpos->iov_index), data_size,
-		    rpos->iov_off, iov, iov_cnt, &tm);
-		if (0 != ret) { /* Previous round tail first, do not jump over it. */
+		    rpos->iov_off, iov, iov_cnt, &tm, &all_used);
+		/* Continue at ring start only after the whole previous round tail. */
+		if (0 != all_used && 0 != tm && ret < iov_cnt) {
 			ret += iovec_aggregate_ex(r_buf->iov,
 			    (1 + r_buf->iov_index), tm, 0, &iov[ret],
-			    (iov_cnt - ret), &tm);
+			    (iov_cnt - ret), &tm, NULL);
 		}
 	}
 return_ok:
